@@ -299,10 +299,10 @@ Definition ref_ok (m : PM.t elem) (r : ref) : bool :=
   end.
 
 (* attribute names the checker interprets *)
-Definition A_LINK : str := [108;105;110;107].                                  (* "link" *)
-Definition A_PARENT : str := [97;115;116;80;97;114;101;110;116].               (* "astParent" *)
-Definition A_OP1 : str := [97;115;116;79;112;101;114;97;110;100;49].           (* "astOperand1" *)
-Definition A_OP2 : str := [97;115;116;79;112;101;114;97;110;100;50].           (* "astOperand2" *)
+Definition A_LINK : str := [116;111;107;101;110;46;108;105;110;107].  (* "token.link" *)
+Definition A_PARENT : str := [116;111;107;101;110;46;97;115;116;80;97;114;101;110;116].  (* "token.astParent" *)
+Definition A_OP1 : str := [116;111;107;101;110;46;97;115;116;79;112;101;114;97;110;100;49].  (* "token.astOperand1" *)
+Definition A_OP2 : str := [116;111;107;101;110;46;97;115;116;79;112;101;114;97;110;100;50].  (* "token.astOperand2" *)
 
 (* attribute tables: owner id -> target id, for one attribute name *)
 Fixpoint attr_map (a : str) (rs : list ref) (m : PM.t N) : PM.t N :=
